@@ -13,6 +13,10 @@ INVARIANT ProbOK
 INVARIANT QueryFrameOK
 INVARIANT EntropyOK
 INVARIANT CtorOK
+INVARIANT ToStateOK
+INVARIANT RandCtorOK
+INVARIANT QutipOK
+INVARIANT FromStabOK
 INVARIANT StepsValid
 INVARIANT StepsRotOK
 INVARIANT StepsTransformOK
